@@ -724,6 +724,18 @@ pub fn run(tier: Tier) -> i32 {
     for v in res.into_iter().flatten() {
         rep.violation(v.0, v.1, v.2);
     }
+    // arrays without elements (numpy saves them too): read as an empty array of the declared shape
+    for (sh, ty, version) in [(vec![0usize], "<f8", 1u8), (vec![0, 3], "<i4", 1), (vec![2, 0], ">u2", 2), (vec![2, 0, 5], "|u1", 3), (vec![0, 0], "<f4", 1)] {
+        let bytes = synth(version, &dict_text(ty, false, &sh, &np), &[]);
+        match catch(|| Array::read_npy(&bytes[..]).map(|a| (a.shape().to_vec(), a.as_slice().len()))) {
+            Ok(Ok((s, 0))) if s == sh => {}
+            other => rep.violation(
+                "C15|lib|empty-array-not-read".to_string(),
+                format!("an npy file of dtype {ty} (version {version}) declaring shape {sh:?} without values: {other:?}, expected an empty array of that shape"),
+                J::obj([("kind", J::s("c15-empty")), ("shape", J::usizes(&sh)), ("file_hex", J::s(hex(&bytes)))]),
+            ),
+        }
+    }
     // fortran_order files of every shape with 1..3 axes of lengths 1..3 (unit axes included)
     let fshapes = crate::enumerate::shapes(3, 1, 3, usize::MAX);
     for v in par_map(fshapes.len(), |i| eval_fortran(&fshapes[i])).into_iter().flatten() {
@@ -733,7 +745,7 @@ pub fn run(tier: Tier) -> i32 {
         name: "lib: rejections".into(),
         evaluations: (rejects.len() + fshapes.len()) as u64,
         nontrivial: (rejects.len() + fshapes.len()) as u64,
-        note: format!("fortran_order True per dtype, unsupported dtypes, missing keys, bad magic/version; fortran_order files of all {} shapes with 1..3 axes of lengths 1..3: rejected, or read with numpy's column-major meaning", fshapes.len()),
+        note: format!("fortran_order True per dtype, unsupported dtypes, missing keys, bad magic/version; five files declaring zero-length axes (read as empty arrays); fortran_order files of all {} shapes with 1..3 axes of lengths 1..3: rejected, or read with numpy's column-major meaning", fshapes.len()),
         exhaustive: true,
         extra: vec![],
     });
